@@ -7,7 +7,9 @@ import os
 from .coqeval import Raw, term
 
 BASES = "ACGT"
-CHROM_POOL = ["chrA", "chrB", "chr1", "chr2", "chrX", "10", "scaffold_7", "chrM"]
+CHROM_POOL = ["chrA", "chrB", "chr1", "chr10", "chr2", "chrX", "10", "1", "scaffold_7", "chrM", "chr1_random", "X"]
+SAMPLE_STYLES = [["S1", "S2", "S3"], ["B", "A", "C"], ["NA1", "NA10", "NA100"], ["child", "mother", "father"],
+                 ["s-1.x", "s_2", "3"], ["sample", "Sample", "SAMPLE"]]
 
 INT_FIELDS = ["variants", "phased", "unphased", "singletons", "blocks", "variant_per_block_min",
               "variant_per_block_max", "variant_per_block_sum", "bp_per_block_min", "bp_per_block_max",
@@ -70,6 +72,14 @@ def _gt_str(alleles, phased):
     return sep.join("." if a is None else str(a) for a in alleles)
 
 
+def _mix_separators(rng, gt):
+    """`0|1/1`: accepted by htslib; pysam reports it as not phased"""
+    if gt.count("|") >= 2 and rng.random() < 0.04:
+        i = gt.rindex("|")
+        return gt[:i] + "/" + gt[i + 1:]
+    return gt
+
+
 def _het_alleles(rng, ploidy):
     while True:
         a = [rng.randint(0, 1) for _ in range(ploidy)]
@@ -81,10 +91,12 @@ def gen_case(rng, size="small"):
     """one case: dict(vcf=text, sample, only_snvs, chromosomes (list of --chromosome arguments or None),
     indexed, tags)."""
     tags = {}
-    ploidy = rng.choice([2] * 8 + [1, 3, 3, 4])
+    ploidy = rng.choice([2] * 8 + [1, 3, 3, 4, 5])
     nsamples = rng.choice([1, 1, 1, 2, 3])
-    samples = [f"S{i + 1}" for i in range(nsamples)]
-    nchrom = rng.choice([1, 1, 2, 2, 3, 4])
+    style = rng.randrange(len(SAMPLE_STYLES))
+    samples = SAMPLE_STYLES[style][:nsamples]
+    tags["sample_names"] = style
+    nchrom = rng.choice([1, 1, 2, 2, 3, 4, 6])
     chroms = rng.sample(CHROM_POOL, nchrom)
     extra_contigs = [c for c in CHROM_POOL if c not in chroms]
     rng.shuffle(extra_contigs)
@@ -96,9 +108,19 @@ def gen_case(rng, size="small"):
     tags["ploidy"] = ploidy
     tags["miss"] = miss_rate > 0
     lines = []
-    hdr = ["##fileformat=VCFv4.2"]
+    hdr = ["##fileformat=VCFv4.2", '##FILTER=<ID=q10,Description="Quality below 10">',
+           '##FILTER=<ID=s50,Description="Less than 50% of samples have data">',
+           '##INFO=<ID=DP,Number=1,Type=Integer,Description="Total depth">',
+           '##FORMAT=<ID=GQ,Number=1,Type=Integer,Description="Genotype quality">',
+           '##FORMAT=<ID=PQ,Number=1,Type=Integer,Description="Phasing quality">']
     contigs = list(chroms) + extra_contigs
+    no_contig_header = rng.random() < 0.06          # header without ##contig lines (plain VCF only)
+    tags["no_contig_header"] = no_contig_header
+    decorate = rng.random() < 0.5                   # ID / QUAL / FILTER / INFO and extra FORMAT keys vary
+    rng.shuffle(contigs)                            # header order is unrelated to file order
     for c in contigs:
+        if no_contig_header:
+            continue
         if rng.random() < 0.15:
             hdr.append(f"##contig=<ID={c}>")
         else:
@@ -111,7 +133,7 @@ def gen_case(rng, size="small"):
     for c in chroms:
         tagkind = rng.choice(["PS", "PS", "PS", "HP", "HP", "none", "nokey"])
         n = rng.choice([0, 1, 2, 3]) if rng.random() < 0.15 else rng.randint(2, maxrec)
-        pos = rng.randint(1, 50)
+        pos = rng.choice([0, 0, rng.randint(1, 50), rng.randint(1, 50), 300000000])   # 0: first record may sit at position 1
         indel_rate = rng.choice([0, 0.2, 0.5])
         # per sample: phase-set layout over the record slots
         layouts = {}
@@ -136,6 +158,8 @@ def gen_case(rng, size="small"):
                 alt = alt + "," + rng.choice([b for b in BASES if b not in (alt[0], ref[0])] + ["GG"])   # multi-ALT
             elif y < 0.07:
                 alt = "."                                                                 # no ALT
+            elif y < 0.08 and kind == "snv":
+                alt = "*"                                                                 # spanning-deletion allele
             calls = []
             need_ps = False
             for s in samples:
@@ -191,7 +215,7 @@ def gen_case(rng, size="small"):
                         gt = _gt_str(gt, False)
                     elif "|" in gt and (tagkind in ("HP", "none") or cls == "missing"):
                         gt = gt.replace("|", "/")
-                calls.append((gt, psv, hpv))
+                calls.append((_mix_separators(rng, gt), psv, hpv))
             if miss_rate > 0 and rng.random() < 0.03:
                 fmt, cols = "DP", [str(rng.randint(1, 40)) for _ in samples]     # record without GT
             elif tagkind == "HP":
@@ -207,14 +231,47 @@ def gen_case(rng, size="small"):
                 if tagkind == "PS":
                     # phased genotypes need the PS column, otherwise they would silently join set 0
                     cols = [g.replace("|", "/") for g in cols]
-            recs.append((pos, f"{c}\t{pos}\t.\t{ref}\t{alt}\t.\t.\t.\t{fmt}\t" + "\t".join(cols)))
+            vid, qual, flt, info = ".", ".", ".", "."
+            if decorate:
+                vid = rng.choice([".", f"rs{rng.randint(1, 999)}"])
+                qual = rng.choice([".", "0", "9.5", "50"])
+                flt = rng.choice([".", "PASS", "PASS", "q10", "q10;s50"])
+                info = rng.choice([".", f"DP={rng.randint(0, 90)}"])
+                if fmt != "DP" and rng.random() < 0.5:
+                    keys = fmt.split(":")
+                    extra = rng.choice(["GQ", "PQ"])
+                    at = rng.randint(1, len(keys))            # anywhere behind GT
+                    keys.insert(at, extra)
+                    fmt = ":".join(keys)
+                    newcols = []
+                    for col in cols:
+                        f = col.split(":")
+                        f.insert(at, rng.choice([".", str(rng.randint(0, 99))]))
+                        newcols.append(":".join(f))
+                    cols = newcols
+            recs.append((pos, f"{c}\t{pos}\t{vid}\t{ref}\t{alt}\t{qual}\t{flt}\t{info}\t{fmt}\t" + "\t".join(cols)))
         if unsorted and len(recs) >= 3:
             i = rng.randrange(len(recs) - 1)
             recs[i], recs[i + 1] = recs[i + 1], recs[i]
             tags["unsorted"] = True
         lines += [r[1] for r in recs]
+    # input container: plain text, bgzip without index, bgzip + tbi / csi index, BCF without / with index
+    if tags.get("unsorted") or no_contig_header:
+        container = "vcf"
+    else:
+        container = rng.choice(["vcf"] * 6 + ["gz", "gz+tbi", "gz+tbi", "gz+csi", "bcf", "bcf+csi"])
+    tags["container"] = container
+    if rng.random() < 0.03 and len(chroms) >= 2 and container == "vcf" and not tags.get("unsorted"):
+        # a chromosome that comes back after another one (accepted without an index): reported twice
+        first = [l for l in lines if l.startswith(chroms[0] + "\t")]
+        if len(first) >= 2:
+            k = len(first) // 2
+            lines = [l for l in lines if l not in first[k:]] + first[k:]
+            tags["noncontiguous"] = True
     case = {"vcf": "\n".join(hdr + lines) + "\n", "sample": None, "only_snvs": rng.random() < 0.3,
-            "chromosomes": None, "indexed": (not tags.get("unsorted")) and rng.random() < 0.25, "tags": tags}
+            "chromosomes": None, "indexed": "+" in container, "container": container, "tags": tags}
+    if rng.random() < 0.25:
+        case["outputs"] = rng.choice([["tsv"], ["tsv", "bl"], ["tsv", "gtf"]])     # which output options are given
     if rng.random() < 0.5 and nsamples > 1 or rng.random() < 0.2:
         case["sample"] = rng.choice(samples)
     if rng.random() < 0.15:
@@ -233,6 +290,11 @@ def gen_case(rng, size="small"):
             case["chromosomes"] = [",".join(sel)] if rng.random() < 0.7 else [",".join(sel) + ","]
         else:
             case["chromosomes"] = sel
+        if rng.random() < 0.08:
+            case["chromosomes"] = case["chromosomes"] + [sel[0]]      # a name given twice
+            tags["dup_chromosome_arg"] = True
+    elif rng.random() < 0.05:
+        case["chromosomes"] = [rng.choice(["", ",", ",,"])]           # unpacks to nothing: all chromosomes
     return case
 
 
@@ -410,7 +472,7 @@ def abstract_vcf(path, sample):
         except KeyError:
             ps = "absent"
         hp = call.get("HP")
-        if hp is None or hp == (".",):
+        if not hp or any(x is None or x == "." for x in hp):
             hpid = None
         else:
             ids = {int(x.split("-")[0]) for x in hp}
